@@ -214,6 +214,7 @@ package transform
 //@   ensures [err-output-zoom] !(0 <= outputHZoom && outputHZoom <= 35 && 0 <= outputVZoom && outputVZoom <= 35) ==> r1 != nil && len(r0) == 0
 //@   ensures [err-input-zoom] (exists k :: 0 <= k && k < len(quadkeyAndVerticalIDs) && !(1 <= quadkeyAndVerticalIDs[k].quadkeyZoom && quadkeyAndVerticalIDs[k].quadkeyZoom <= 31 && 0 <= quadkeyAndVerticalIDs[k].vZoom && quadkeyAndVerticalIDs[k].vZoom <= 35)) ==> r1 != nil && len(r0) == 0
 //@   ensures [err-height-order] (exists k :: 0 <= k && k < len(quadkeyAndVerticalIDs) && quadkeyAndVerticalIDs[k].maxHeight < quadkeyAndVerticalIDs[k].minHeight) ==> r1 != nil && len(r0) == 0
+//@   ensures [no-error-when-valid] 0 <= outputHZoom && outputHZoom <= 35 && 0 <= outputVZoom && outputVZoom <= 35 && (forall k :: 0 <= k && k < len(quadkeyAndVerticalIDs) ==> (1 <= quadkeyAndVerticalIDs[k].quadkeyZoom && quadkeyAndVerticalIDs[k].quadkeyZoom <= 31 && 0 <= quadkeyAndVerticalIDs[k].vZoom && quadkeyAndVerticalIDs[k].vZoom <= 35 && quadkeyAndVerticalIDs[k].quadkey <= 4611686018427388064 && (quadkeyAndVerticalIDs[k].maxHeight == quadkeyAndVerticalIDs[k].minHeight || (quadkeyAndVerticalIDs[k].maxHeight > quadkeyAndVerticalIDs[k].minHeight && quadkeyAndVerticalIDs[k].vIndex <= pow2(quadkeyAndVerticalIDs[k].vZoom + 1))))) ==> r1 == nil
 //@   ensures [nodup] nodup(r0)
 //@   ensures [shape] forall k :: 0 <= k && k < len(r0) ==> nf(r0[k]) == 5
 //@   loopframe
